@@ -138,6 +138,18 @@ def add_cursor(cr, D):
     for k in range(D):
         w[(9 + k, "stride<%d>" % k)] = v.dims[k].s
     cr.add("O02.cursor(D=%d)" % D, "O02.cursor", D, idx, body, w)
+    if D >= 3:
+        # partial call forms: a cursor of lower dimensionality, indexed / called further (every split of the index tuple in two)
+        parts = []
+        wp = {}
+        for cut in range(1, D):
+            head = "(%s)" % ", ".join(idx[:cut])
+            tail_br = "".join("[%s]" % i for i in idx[cut:])
+            tail_call = "(%s)" % ", ".join(idx[cut:])
+            parts.append("out[%d] = eaddr(c%s%s, base); out[%d] = eaddr(c%s%s, base);" % (2 * cut, head, tail_br, 2 * cut + 1, head, tail_call))
+            wp[(2 * cut, "home()%s%s" % (head, tail_br))] = at
+            wp[(2 * cut + 1, "home()%s%s" % (head, tail_call))] = at
+        cr.add("O02.cursor.partial(D=%d)" % D, "O02.cursor", D, idx, "auto c = v.home(); " + " ".join(parts), wp)
 
 
 def digits(k, zs, fs):
